@@ -28,6 +28,50 @@ CONFIGS = [
 ]
 
 
+_JITZOO: dict[str, Any] = {}
+
+
+def _jitzoo() -> dict[str, Any]:
+    """jax.jit-wrapped helpers full of *parametrised* primitives.  JAX caches the helper's jaxpr, so
+    every export after the first lowers the very same equation objects again: a lowering that
+    consumes or edits what it reads (eqn.params, closed-over constants) shows up as a later
+    export that differs from the first."""
+    if _JITZOO:
+        return _JITZOO
+    import jax
+    import jax.numpy as jnp
+    from jax import lax
+
+    def a(x):
+        i = jnp.argsort(x, axis=1)
+        return (jnp.triu(x, k=1), jnp.tril(x, k=-1), jnp.cumsum(x, axis=1), jnp.roll(x, 2, axis=1), jnp.clip(x, -0.2, 0.3), jnp.pad(x, ((1, 0), (0, 2)), constant_values=0.5),
+                jnp.sort(x, axis=0), i, jnp.take(x, jnp.array([2, 0]), axis=1), jnp.flip(x, axis=1), jnp.squeeze(x[:, :1], axis=1), jnp.expand_dims(x, axis=(0, 2)))
+
+    def b(x):
+        return (jnp.sum(x, axis=1, keepdims=True), jnp.max(x, axis=0), jnp.mean(x, axis=(0, 1)), jnp.prod(x, axis=1), jnp.var(x, axis=0, ddof=1), jnp.argmax(x, axis=1, keepdims=True),
+                jax.nn.softmax(x, axis=0), jax.nn.log_softmax(x, axis=1), jax.nn.logsumexp(x, axis=1, keepdims=True), jax.nn.gelu(x, approximate=False), jax.nn.leaky_relu(x, negative_slope=0.3),
+                jax.nn.elu(x, alpha=0.5), jax.nn.one_hot(jnp.argmax(x, axis=1), 4, axis=0), jax.nn.standardize(x, axis=0))
+
+    def c(x):
+        return (jnp.transpose(x, (1, 0)), jnp.reshape(x, (2, 6)), jnp.tile(x, (1, 2)), jnp.repeat(x, 2, axis=0), jnp.concatenate([x, x * 2], axis=1), jnp.stack([x, -x], axis=-1),
+                jnp.split(x, 2, axis=1)[1], jnp.moveaxis(x, 0, 1), jnp.einsum("ij,kj->ik", x, x), jnp.tensordot(x, x, axes=([1], [1])), jnp.linspace(0.0, 1.0, 4, endpoint=False) + x,
+                jnp.arange(0, 8, 2, dtype=jnp.float32) * x, jnp.where(x > 0, x, -1.0), jnp.select([x > 0.2, x > 0], [x, x * 2], default=-1.0), jnp.round(x, decimals=1), jnp.diff(x, axis=0))
+
+    def d(x):
+        return (lax.cumsum(x, axis=1, reverse=True), lax.cummax(x, axis=0), lax.reduce_max(x, axes=(1,)), lax.dynamic_slice(x, (1, 1), (2, 2)), lax.dynamic_update_slice(x, jnp.ones((1, 2), x.dtype), (1, 1)),
+                lax.top_k(x, k=2)[0], lax.integer_pow(x, 3), lax.slice(x, (0, 1), (3, 4), (1, 2)), lax.rev(x, (0,)), lax.broadcast_in_dim(x[0], (2, 4), (1,)), lax.iota(jnp.float32, 4) + x,
+                lax.reduce_window(x, 0.0, lax.add, (2, 2), (1, 2), "SAME"), lax.pad(x, 0.25, ((1, 0, 0), (0, 1, 0))), lax.convert_element_type(x, jnp.int32), lax.clamp(-0.1, x, 0.2),
+                lax.dot_general(x, x, (((1,), (1,)), ((), ()))), lax.conv_general_dilated(x.reshape(1, 3, 4, 1), jnp.ones((2, 2, 1, 2), jnp.float32), (1, 1), "SAME", rhs_dilation=(2, 1), dimension_numbers=("NHWC", "HWIO", "NHWC")))
+
+    def e(x):
+        return (lax.fori_loop(1, 4, lambda i, v: v * 1.1 + i, x), lax.scan(lambda c_, r: (c_ + r, c_ * r), jnp.zeros((4,), x.dtype), x)[1], lax.cond(jnp.sum(x) > 0, lambda v: jnp.triu(v, k=1), lambda v: jnp.tril(v, k=-1), x),
+                lax.while_loop(lambda s: s[0] < 3, lambda s: (s[0] + 1, s[1] * 0.5 + 1.0), (0, x))[1])
+
+    for nm, f in (("a", a), ("b", b), ("c", c), ("d", d), ("e", e)):
+        _JITZOO[nm] = jax.jit(f)
+    return _JITZOO
+
+
 def hand_export(name: str):
     import jax
     import jax.numpy as jnp
@@ -36,6 +80,11 @@ def hand_export(name: str):
 
     from vlib import fnmods
 
+    if name.startswith("jitzoo_"):
+        helper = _jitzoo()[name.split("_")[1]]
+        if name.endswith("_other_model"):  # a different model that shares the jitted helper (same operand shape and dtype)
+            return to_onnx(lambda x, y: [t * 2.0 if t.dtype == jnp.float32 else t for t in helper(x + 0.0)][:3] + [y], [(3, 4), (2,)])
+        return to_onnx(lambda x: helper(x), [(3, 4)])
     if name == "gather_const_indices":
         g = lambda x: lax.gather(x, lax.reshape(jnp.array([2, 0]), (2, 1)), lax.GatherDimensionNumbers(offset_dims=(1,), collapsed_slice_dims=(0,), start_index_map=(0,)), (1, 4))  # noqa: E731
         return to_onnx(lambda x: g(x) * 2.0 + x[jnp.array([1, 1])], [(3, 4)])
@@ -64,6 +113,7 @@ def hand_export(name: str):
     raise KeyError(name)
 
 
+HAND_JIT = ["jitzoo_a_other_model", "jitzoo_a", "jitzoo_b", "jitzoo_c", "jitzoo_d", "jitzoo_e", "jitzoo_d_other_model"]
 HAND = ["function_used_by_failed_conversion", "gather_const_indices", "input_params_forwarded", "nchw_add_forest", "function_dedup_array_captures", "nested_functions", "loops_and_conds", "symbolic_two", "many_transposes", "double_consts"]
 
 
@@ -98,6 +148,7 @@ def enumerate_cases(tier: str, seed: int) -> list[dict[str, Any]]:
     for gi in range(0, len(reqs), group):
         cases.append({"key": f"group:reg:{gi // group}", "requests": reqs[gi : gi + group], "cost": 5.0, "timeout": 900})
     cases.append({"key": "group:hand", "requests": ["hand:" + h for h in HAND], "cost": 5.0, "timeout": 900})
+    cases.append({"key": "group:hand_jit", "requests": ["hand:" + h for h in HAND_JIT], "cost": 5.0, "timeout": 900})
     n_graph = 60 if tier == "quick" else 600
     recipes = [r for r in graphgen.recipes(n_graph * 2, seed + 99) if r["t"] in ("transpose_chain", "add_forest", "transpose_reduce", "reshape_pair", "in_if", "in_function")][:n_graph]
     for gi in range(0, len(recipes), 30):
